@@ -128,6 +128,14 @@ def extra(repo, reg, tier, seed):
                      "completion/references answer and of the diagnostics")
     it.count = n
     items.append(it)
+    for case in c15_sched.KNOWN_CASES:
+        w, n = c15_sched.run_case(case)
+        it = Item(f"C15/session/schedule_exploration[{case}]", "refuted" if w else "bounded-ok", "native-run(bounded)", 0.0,
+                  mode="bounded", witness=w, confirmed=True if w else None, func=f"{LS}.workspace_init",
+                  detail=f"bounded: every enumeration order and every opening order of the {len(c15_sched.KNOWN_CASES[case])}-file "
+                         f"workspace '{case}' ({n} schedules)")
+        it.count = n
+        items.append(it)
     return items
 
 
